@@ -100,6 +100,8 @@ def obligations(tier: str):
         add(f"tree_grow_{fxn}_mutate", fixture=fxn, rep="tree", decider="grow", max_depth=2, ops=["mutate"])
         if T:
             add(f"tree_grow_{fxn}_crossover", fixture=fxn, rep="tree", decider="grow", max_depth=2, ops=["crossover"])
+    add("tree_grow_f14_create", fixture="f14", rep="tree", decider="grow", max_depth=2, timeout=200)
+    add("tree_grow_f14_mutate", fixture="f14", rep="tree", decider="grow", max_depth=2, ops=["mutate"], timeout=300) if T else None
     add("tree_grow_f2blk_create", fixture="f2", grammar_fn="grammar_blk", rep="tree", decider="grow", max_depth=3, timeout=200)
     add("tree_full_f2blk_create", fixture="f2", grammar_fn="grammar_blk", rep="tree", decider="full", max_depth=3, timeout=200)
     add("tree_grow_f11_concrete_start_crossover", fixture="f11", rep="tree", decider="grow", max_depth=3, ops=["crossover"], timeout=400)
@@ -111,4 +113,4 @@ def obligations(tier: str):
         add(f"{rep}_f1_create", fixture="f1", rep=rep, decider="grow", max_depth=3, gene_length=gl)
         add(f"{rep}_f2_create", fixture="f2", rep=rep, decider="grow", max_depth=2 if rep != "dsge" else 3, gene_length=gl)
     add("stack_f1_create", fixture="f1", rep="stack", gene_length=3 if not T else 4, failures_limit=1, gene_fuel=8 if not T else 12, timeout=150)
-    return obs
+    return [o for o in obs if o is not None]
